@@ -263,7 +263,7 @@ fn classify(op: Op, cfg: &Cfg, exp: &Snap, got: &Snap, exp_res: &str, got_res: &
             Op::Insert(..) => "C04,C12,C13",
             Op::Invalidate(_) | Op::InvalidateAll | Op::InvalidateIf(_) => "C07,C01",
             _ if !missing.is_empty() => if observer { "C03,C15" } else { "C03" },
-            _ => if expiry { "C05,C06,C04" } else { "C04,C12" },
+            _ => if expiry { "C05,C06,C04,C11,C12" } else { "C04,C12" },
         };
         return Some(Finding { tags, what: format!("residents after {:?}: expected {:?} got {:?} (missing {:?}, unexpected {:?})", op, ek, gk, missing, extra) });
     }
@@ -280,7 +280,7 @@ fn classify(op: Op, cfg: &Cfg, exp: &Snap, got: &Snap, exp_res: &str, got_res: &
     if exp.wo != got.wo { return Some(Finding { tags: "C05,C11", what: format!("write-order list after {:?}: expected {:?} got {:?}", op, exp.wo, got.wo) }); }
     if got.entry_count != got.p.len() as u64 { return Some(Finding { tags: "C10", what: format!("entry_count {} but {} entries held after {:?}", got.entry_count, got.p.len(), op) }); }
     let held: u64 = got.p.iter().map(|e| e.weight as u64).sum();
-    if got.weighted_size != held { return Some(Finding { tags: "C10,C03,C04", what: format!("weighted_size {} but resident weight {} after {:?}", got.weighted_size, held, op) }); }
+    if got.weighted_size != held { return Some(Finding { tags: "C10,C03,C04,C12", what: format!("weighted_size {} but resident weight {} after {:?}", got.weighted_size, held, op) }); }
     if exp.freqs != got.freqs || exp.enabled != got.enabled {
         return Some(Finding { tags: if observer { "C14,C15" } else { "C14,C13" }, what: format!("popularity estimates after {:?}: expected {:?} got {:?}", op, exp.freqs, got.freqs) });
     }
@@ -421,6 +421,24 @@ fn verif_rt_unsync() {
                 histories += 1; steps += seq.len() as u64;
                 if let Some((at, f)) = run_history(cfg, &seq) {
                     if !seen_tags.contains(&f.tags) { seen_tags.push(f.tags); report(&cfg, &seq[at.saturating_sub(2)..], at.min(2), &f); findings += 1; }
+                }
+            }
+        }
+    }
+    // directed part: a weight-growing update leaves a surplus that the NEXT operation has to trim, while another entry sits
+    // exactly at its expiry deadline or weightless entries sit at the cold end (order of the two housekeeping steps, trim amount)
+    for cfg in &cfgs {
+        if findings >= 6 { break; }
+        if cfg.weigher.is_none() || cfg.weigher == Some(3) || cfg.cap.is_none() { continue; }
+        for (a, b, c0, c1) in [(0u8, 1u8, 2u8, 3u8), (1, 0, 0, 3), (2, 2, 0, 3), (0, 0, 1, 3), (3, 0, 1, 3), (2, 1, 1, 3), (1, 1, 0, 2)] {
+            for dt in [10u64, 5, 15] {
+                for next in [Op::Contains(9), Op::Get(1), Op::Invalidate(1), Op::Insert(4, 0), Op::Iter] {
+                    let seq = vec![Op::Insert(0, a), Op::Advance(1), Op::Insert(1, b), Op::Advance(1), Op::Get(0), Op::Insert(2, c0), Op::Insert(2, c1), Op::Advance(dt - 2), next, Op::Contains(9), Op::Iter];
+                    histories += 1; steps += seq.len() as u64;
+                    if let Some((at, f)) = run_history(*cfg, &seq) {
+                        if !seen_tags.contains(&f.tags) { seen_tags.push(f.tags); let s2 = shrink(*cfg, seq[..(at + 1).min(seq.len())].to_vec(), f.tags);
+                            let (at2, f2) = run_history(*cfg, &s2).unwrap(); report(cfg, &s2, at2, &f2); findings += 1; }
+                    }
                 }
             }
         }
